@@ -22,3 +22,9 @@ def jobs(tier):
         bounds='entries 0..%d, dim 0..%d (incl. 0)'%(em,dm),weight=3,solver='kissat'))
     return J
 CLAIM=None
+import importlib.util as _u, os as _o
+def _blk():
+    p=_o.path.join(_o.path.dirname(_o.path.dirname(_o.path.abspath(__file__))),'block','jobs_common.py'); sp=_u.spec_from_file_location('blk',p); m=_u.module_from_spec(sp); sp.loader.exec_module(m); return m
+_jobs0=jobs
+def jobs(tier):
+    return _jobs0(tier)+[j for j in _blk().blockin_jobs(tier) if 'data' not in j.name][:2 if tier=='quick' else 99]
